@@ -133,7 +133,7 @@ func c22Exec(p *harness.Plan) *harness.Outcome {
 // relabelPanic attributes an unexpected kernel panic to the property whose
 // run provoked it, keeping the panic site in the signature.
 func relabelPanic(r *crun, prop string) {
-	if v := r.c.Violation; v != nil && v.Property == "PANIC" {
+	if v := r.c.Violation; v != nil && (v.Property == "PANIC" || (v.Property == "C22" && v.Signature == "restart-failed")) {
 		v.Property = prop
 	}
 }
